@@ -60,6 +60,10 @@ class C14(Check):
             # imported types that do not exist / are not classes
             'from os import foo\nfoo p\nout = p > 1', 'from os import path\npath p\nout = p > 1', 'from math import pi\npi p\nout = p > 1', 'from sys import exit\nexit p\nout = p > 1',
             'from nowhere import foo\nfoo p\nout = p > 1',
+            # hexadecimal / binary literals beyond the largest float or the int-to-text limit, annotations that name a constant, imports that misbehave
+            'out = xa > 0x1' + '0' * 256 + ';', 'out = xa > 0b1' + '0' * 1024 + ';', 'const float c1 = 0x1' + '0' * 3700 + '\nout = xa > c1', 'out = once[0,0x1' + '0' * 3700 + '] xa;',
+            'const float c1 = 1\n@topic(c1, t)\nout = xa', '@topic(k1, t)\nout = xa', '@topic(zz, t)\nout = xa', 'from harness.badmod_exit import T\nT p\nout = p > 1', 'from harness.badmod_raise import T\nT p\nout = p > 1',
+            'from builtins import super\nsuper v\nout = v > 1', 'from builtins import print\nprint v\nout = v > 1', 'from builtins import open\nopen v\nout = v > 1',
         ]
         for t in fixed:
             cases.append({'text': t, 'stream': 'fixed'})
